@@ -997,6 +997,16 @@ func (self *AofChannel) HandleLock(aofLock *AofLock) {
 	err = self.aof.PushLock(self.lockDbGlockIndex, aofLock)
 	if err != nil {
 		if aofLock.AofFlag&AOF_FLAG_REQUIRE_ACKED != 0 && aofLock.CommandType == protocol.COMMAND_LOCK && aofLock.lock != nil {
+			// the record may already be registered for acknowledgement and sit in the file's ack list: take it out
+			// of the pending table first so that the queued lockAcked(...) does not fail the same lock a second time
+			if db := self.aof.slock.replicationManager.GetAckDB(aofLock.DbId); db != nil {
+				db.ackGlocks[self.lockDbGlockIndex].Lock()
+				if aofId, ok := db.commandAofs[self.lockDbGlockIndex][aofLock.lock.command.RequestId]; ok {
+					delete(db.commandAofs[self.lockDbGlockIndex], aofLock.lock.command.RequestId)
+					delete(db.aofLocks[self.lockDbGlockIndex], aofId)
+				}
+				db.ackGlocks[self.lockDbGlockIndex].Unlock()
+			}
 			lockManager := aofLock.lock.manager
 			lockManager.lockDb.DoAckLock(aofLock.lock, false)
 		}
